@@ -3,7 +3,7 @@
 /verif/seeded/neutral/<PROP>-<n>/ and run EVERY quick check against each (scratch worktree, --repo).
 Expected: every check exits 0.  exit 1 = false alarm of the machinery, exit 2 = unrecognised idiom.
 
-usage: tools/import_neutral.py C06
+usage: tools/import_neutral.py C06 [--round 2]
 """
 import json, os, re, shutil, subprocess, sys
 VERIF = os.path.dirname(os.path.dirname(os.path.abspath(__file__)))
@@ -16,14 +16,18 @@ def sh(cmd, **kw):
 
 def main():
     prop = sys.argv[1]
-    src = f'/tmp/seed_out/N{prop}'
+    # round 2: tools/import_neutral.py C06 --round 2   reads /tmp/seed_out/N2C06/ and stores C06-11, C06-12, …
+    rnd = int(sys.argv[sys.argv.index('--round') + 1]) if '--round' in sys.argv else 1
+    src = f'/tmp/seed_out/N{prop}' if rnd == 1 else f'/tmp/seed_out/N{rnd}{prop}'
+    offset = 0 if rnd == 1 else 10 * (rnd - 1)
     ns = sorted(int(m.group(1)) for f in os.listdir(src) for m in [re.match(r'change(\d+)\.diff$', f)] if m)
-    for n in ns:
+    for n0 in ns:
+        n = n0 + offset
         dst = os.path.join(VERIF, 'seeded', 'neutral', f'{prop}-{n}')
         os.makedirs(dst, exist_ok=True)
-        shutil.copy(f'{src}/change{n}.diff', f'{dst}/patch.diff')
+        shutil.copy(f'{src}/change{n0}.diff', f'{dst}/patch.diff')
         try:
-            meta = json.load(open(f'{src}/meta{n}.json'))
+            meta = json.load(open(f'{src}/meta{n0}.json'))
         except Exception:
             meta = {}
         wt = f'/tmp/confirm_N{prop}_{n}'
